@@ -22,7 +22,7 @@ ID = 'C14'
 LEVEL = 'exploration'
 RULE = ('Hypothesis-generated sequences of 1-5 calls on the repository\'s generated Hello interface and on a dynamic-style '
         'fixture (void ping, echo(string), add(i32,i64), put(struct{string,i32,list<string>,map<string,i64>,binary,bool,'
-        'double}), risky(string) throws (E1,E2), flag(bool), blob(binary), scale(double), names(i32)->list<string>) with '
+        'double}), risky(string) throws (E1,E2), void guard(string) throws (E1,E2), flag(bool), blob(binary), scale(double), names(i32)->list<string>) with '
         'Hypothesis values (text incl. non-ASCII/empty, full integer ranges, finite doubles), positional or keyword '
         'arguments, planned outcome value / declared exception / application exception, through MessageDispatcher -> '
         'ThriftSerializerSink -> thrift SocketTransportSink on the simulated socket (calls one after the other, or all at once from separate greenlets through a one-connection WatermarkPoolSink; send() accepting at most 1-4096 bytes per call). The peer decodes with the Thrift '
@@ -69,6 +69,8 @@ def _call(child=False):
       st.fixed_dictionaries({'m': st.just('put'), 'args': st.tuples(_item()).map(list), 'outcome': st.just('value'), 'ret': _item()}),
       st.fixed_dictionaries({'m': st.just('risky'), 'args': st.tuples(TEXT).map(list), 'outcome': st.sampled_from(['value', 'e1', 'e2', 'appexc']),
                              'ret': TEXT, 'exc': st.tuples(I32, TEXT).map(list)}),
+      st.fixed_dictionaries({'m': st.just('guard'), 'args': st.tuples(TEXT).map(list), 'outcome': st.sampled_from(['void', 'e1', 'e2', 'appexc']),
+                             'exc': st.tuples(I32, TEXT).map(list)}),
       st.fixed_dictionaries({'m': st.just('flag'), 'args': st.tuples(st.booleans()).map(list), 'outcome': st.just('value'), 'ret': st.booleans()}),
       st.fixed_dictionaries({'m': st.just('blob'), 'args': st.tuples(BIN).map(list), 'outcome': st.just('value'), 'ret': BIN}),
       st.fixed_dictionaries({'m': st.just('scale'), 'args': st.tuples(DBL).map(list), 'outcome': st.just('value'), 'ret': DBL}),
@@ -115,7 +117,7 @@ def strategy(tier):
   )
 
 
-ARG_NAMES = {'ping': [], 'echo': ['text'], 'add': ['a', 'b'], 'put': ['item'], 'risky': ['what'], 'flag': ['v'],
+ARG_NAMES = {'ping': [], 'echo': ['text'], 'add': ['a', 'b'], 'put': ['item'], 'risky': ['what'], 'guard': ['what'], 'flag': ['v'],
              'blob': ['data'], 'scale': ['x'], 'names': ['n'], 'hi': ['test_data'], 'extra': ['text'], 'poke': []}
 
 
